@@ -150,6 +150,9 @@ type fakeCache struct {
 	// built by a reader whose snapshot was already behind committed storage (the
 	// known snapshot-versioning finding of C09, see known_findings.txt)
 	staleAtBirth bool
+	// built by a reader while this write transaction (id) was in progress, i.e. held
+	// the storage-writer token (0 = none): the second face of the same finding
+	bornDuringWriter int
 }
 
 func (f *fakeCache) SizeInMemory() int64 { return f.size }
@@ -166,6 +169,8 @@ func (c11) Execute(env *Env) {
 	storage := map[string][]int{} // committed write ids per name
 	aborted := map[int]bool{}     // write ids of failed transactions
 	inflight := map[int]int{}     // write id -> transaction
+	widOwner := map[int]int{}     // write id -> transaction, kept for ever
+	currentWriter := 0            // transaction holding the storage-writer token
 	serial, nextWrite := 0, 0
 	contended := false
 	var writerToken sim.SimLock
@@ -185,19 +190,21 @@ func (c11) Execute(env *Env) {
 	if p.MaxSize > 0 || len(p.Releases) > 0 {
 		suffix = ":eviction-possible"
 	}
-	// A transaction that write-accesses the same name more than once is outside what
-	// semadb itself does (one pipeline per index and batch) and hits a second known
-	// finding (locks are tracked by name); flagged for the same reason.
+	// A transaction that write-accesses a name and accesses the same name again
+	// (reading or writing) is outside what semadb itself does (one write access per
+	// index and batch) and hits a second known finding (locks are tracked by name,
+	// not by object); flagged for the same reason.
 	for _, t := range p.Txs {
-		n := map[string]int{}
+		writes, all := map[string]int{}, map[string]int{}
 		for _, a := range t.Accesses {
+			all[a.Name]++
 			if !a.ReadOnly {
-				n[a.Name]++
+				writes[a.Name]++
 			}
 		}
-		for _, c := range n {
-			if c > 1 && suffix == "" {
-				suffix = ":tx-writes-a-name-twice"
+		for name, c := range detRange(all) {
+			if c > 1 && writes[name] > 0 && suffix == "" {
+				suffix = ":tx-revisits-a-written-name"
 			}
 		}
 	}
@@ -210,9 +217,10 @@ func (c11) Execute(env *Env) {
 			}
 			if t.Writer {
 				writerToken.Lock("c11:storage-writer")
+				currentWriter = id
 			}
 			snapshot := map[string][]int{}
-			for k, v := range storage {
+			for k, v := range detRange(storage) {
 				snapshot[k] = append([]int(nil), v...)
 			}
 			tx := m.NewTransaction()
@@ -236,6 +244,9 @@ func (c11) Execute(env *Env) {
 							o.staleAtBirth = true
 						}
 					}
+					if !t.Writer {
+						o.bornDuringWriter = currentWriter
+					}
 					return o, nil
 				}
 				err := tx.With(a.Name, a.ReadOnly, createFn, func(c cache.Cachable) error {
@@ -250,7 +261,7 @@ func (c11) Execute(env *Env) {
 						env.Violate("isolation", "access-during-foreign-write"+suffix, "%s: transaction %d write-accessed this object and has not committed yet", where, o.writerTx)
 					}
 					if !a.ReadOnly {
-						for other, n := range o.inside {
+						for other, n := range detRange(o.inside) {
 							if other != id && n > 0 {
 								env.Violate("isolation", "write-while-foreign-reader-inside"+suffix, "%s: transaction %d is inside a callback on the same object", where, other)
 							}
@@ -273,6 +284,8 @@ func (c11) Execute(env *Env) {
 							sig := "stale-cache-handed-out"
 							if o.staleAtBirth {
 								sig += ":built-by-reader-with-older-snapshot"
+							} else if o.bornDuringWriter != 0 && widOwner[wid] == o.bornDuringWriter {
+								sig += ":built-by-reader-during-a-write-transaction"
 							}
 							env.Violate("stale", sig+suffix, "%s: the object lacks write %d which was committed before this transaction began (cache older than committed storage)", where, wid)
 						}
@@ -289,6 +302,7 @@ func (c11) Execute(env *Env) {
 						nextWrite++
 						o.applied = append(o.applied, nextWrite)
 						inflight[nextWrite] = id
+						widOwner[nextWrite] = id
 						myWrites = append(myWrites, nextWrite)
 					}
 					for i := 0; i < a.Yields; i++ {
@@ -352,6 +366,7 @@ func (c11) Execute(env *Env) {
 				}
 			}
 			if t.Writer {
+				currentWriter = 0
 				writerToken.Unlock("c11:storage-writer")
 			}
 			tx.Commit(failed)
